@@ -81,6 +81,9 @@ let () =
           let lim = (match rest with l :: _ -> l <> "0" | [] -> false) in
           let has c = String.contains modes c in
           let feat = match feat with "1" -> 1 | "2" -> 2 | _ -> 0 in
+          let info = (match rest with
+            | _ :: _ :: a :: _ when String.length a > 0 && a.[0] = 'A' -> string_of_z (argv_info (argv_of_token a))
+            | _ -> "-") in
           let ((r, p), o) =
             match rest with
             | _ :: _ :: a :: _ when String.length a > 0 && a.[0] = 'A' ->
@@ -90,7 +93,7 @@ let () =
               (z_of_int feat) (rfa = "1") (out <> "-") (log <> "-") (verbose = "off")
               (cls lim out) (cls lim cy) (cls false log) (cls false stdout_c) (pre out) (pre cy) (pre log) in
           let sp = sym_pred sym in
-          print_endline (String.concat "|" [fmt_obs sp r; fmt_obs sp p; fmt_obs sp o])
+          print_endline (String.concat "|" [fmt_obs sp r; fmt_obs sp p; fmt_obs sp o; info])
         | _ -> failwith ("bad case line: " ^ line)
       end
     done
